@@ -30,6 +30,10 @@ def key(x):
     return x[0] + (t02.key(x[1]) if x[0] == "t02" else t14.key(x[1]))
 
 
+def priority(x):
+    return 0 if (x[0] == "t02" and x[1].get("level") == "api") or (x[0] == "t14" and x[1].get("level") == "api") else 1
+
+
 def nontrivial(x):
     return True
 
